@@ -29,6 +29,8 @@ CONSTANTS
   TrampFlushed = TRUE
   Regen = FALSE
   SavedFrom = "install"
+  ForeignReuse = FALSE
+  AllocAt = "hint"
   UserCalls = FALSE
   MaxUserCalls = 0
   InstallKinds = {"jump"}
